@@ -79,17 +79,18 @@ def draw_tasks(ch, params):
             tasks.append({"kind": "tcache", "seq": seq})
         return {"stratum": stratum, "mode": mode, "tasks": tasks, "progs": progs, "lru_size": size}
     elif stratum == "media":
-        hier = {"n": 2 + ch.draw(3, "n_classes"), "bases": [], "files": [], "extend": []}
+        hier = {"n": 2 + ch.draw(3, "n_classes"), "bases": [], "files": [], "extend": [], "file_assets": []}
         for i in range(hier["n"]):
             hier["bases"].append(ch.draw(i + 1, "base") - 1)  # -1 = Component
             hier["files"].append(ch.draw(4, "files"))
             hier["extend"].append(ch.draw(3, "extend") != 2)
+            hier["file_assets"].append(ch.weighted([2, 2, 2], "file_assets"))  # inline / js_file / template_file + css_file
         for k in range(n):
             order = []
             pool = list(range(hier["n"]))
             while pool:
                 order.append(pool.pop(ch.draw(len(pool), "access")))
-            tasks.append({"kind": "media", "order": order, "attr": ch.draw(3, "attr")})
+            tasks.append({"kind": "media", "order": order, "attr": ch.draw(4, "attr")})
         return {"stratum": stratum, "mode": mode, "tasks": tasks, "progs": progs, "hier": hier}
     return {"stratum": stratum, "mode": mode, "tasks": tasks, "progs": progs}
 
@@ -123,18 +124,43 @@ class Setup:
             if t.get("shared_template") and t["prog"] not in self.shared_templates:
                 self.shared_templates[t["prog"]] = Template(emit.page_source(spec["progs"][t["prog"]]))
         self.media_classes = None
+        self.tmpdir = None
         if spec["stratum"] == "media":
             self.media_classes = self.build_hierarchy(spec["hier"])
 
     def build_hierarchy(self, h):
         from django_components import Component
 
+        import tempfile
+
+        from django.conf import settings
+
         FILES = [([], []), (["a.js"], ["x.css"]), (["shared.js", "b.js"], []), (["shared.js"], ["x.css", "y.css"])]
         out = []
+        self.tmpdir = tempfile.mkdtemp(prefix="djc-c07-")
+        comps = dict(settings.COMPONENTS)
+        comps["dirs"] = [self.tmpdir]
+        settings.COMPONENTS = comps
         for i in range(h["n"]):
             base = Component if h["bases"][i] < 0 else out[h["bases"][i]]
             js, css = FILES[h["files"][i]]
-            attrs = {"__module__": "sim.generated", "template": f"m{i}", "js": f"console.log({i});" if i % 2 else None}
+            fa = h.get("file_assets", [0] * h["n"])[i]
+            attrs = {"__module__": "sim.generated"}
+            if fa == 2:
+                attrs["template_file"] = f"m{i}.html"
+                attrs["css_file"] = f"m{i}.css"
+                with open(os.path.join(self.tmpdir, f"m{i}.html"), "w") as f:
+                    f.write(f"file-template-{i}")
+                with open(os.path.join(self.tmpdir, f"m{i}.css"), "w") as f:
+                    f.write(f".m{i} {{}}")
+            else:
+                attrs["template"] = f"m{i}"
+            if fa == 1:
+                attrs["js_file"] = f"m{i}.js"
+                with open(os.path.join(self.tmpdir, f"m{i}.js"), "w") as f:
+                    f.write(f"console.log('file {i}');")
+            else:
+                attrs["js"] = f"console.log({i});" if i % 2 else None
             if js or css or not h["extend"][i]:
                 m = {}
                 if js:
@@ -209,11 +235,19 @@ class Setup:
                         out.append([ci, str(cls.media)])
                     elif t["attr"] == 1:
                         out.append([ci, repr(cls.js), repr(cls.template)])
+                    elif t["attr"] == 3:
+                        out.append([ci, R.normalise(str(cls.render())), repr(cls.css)])
                     else:
                         out.append([ci, str(cls().media), repr(cls.css)])
                 return out
             return wrap(fn)
         raise AssertionError(kind)
+
+    def cleanup(self):
+        if self.tmpdir:
+            import shutil
+
+            shutil.rmtree(self.tmpdir, ignore_errors=True)
 
     def end_state(self):
         import django_components.cache as djc_cache
@@ -259,6 +293,7 @@ def run(ch, params, decoded=False):
             setup, s, results = run_tasks(spec, knobs, {"kind": "serial", "order": list(range(n))})
             out = {"results": results, "steps": [t.steps for t in s.tasks], "shared": [t.shared_steps for t in s.tasks],
                    "groups": dict(zip(schedmod.GROUPS, s.group_counts)), "end": setup.end_state()}
+            setup.cleanup()
         except BaseException as e:
             out = {"harness_error": repr(e), "tb": traceback.format_exc()[-2000:]}
         os.write(wfd, json.dumps(out, default=repr).encode())
@@ -282,6 +317,7 @@ def run(ch, params, decoded=False):
     setup, s, results = run_tasks(spec, knobs, plan)
     results = json.loads(json.dumps(results, default=repr))
     end = json.loads(json.dumps(setup.end_state(), default=repr))
+    setup.cleanup()
     violations = []
     stats = {"stratum:" + spec["stratum"]: 1, "strategy:" + plan["name"]: 1, "fault:PREEMPT": len(s.switches),
              "focus:" + plan.get("focus", "all"): 1,
